@@ -962,7 +962,7 @@ type mon struct{}
 func (mon) Name() string { return "filecopy" }
 
 func (mon) Level(prop string) (string, string) {
-	return "fault_enumeration", "BOTH TIERS: complete product of operation {CopyFile, MoveFile} × source size × source {present, missing, symlink to file} × destination {missing, shorter, longer, directory, parent missing, parent is a file, symlink to another file, dangling symlink, and the source itself as same path / ./ / dir/../ / symlink / relative symlink / hard link / symlink chain / through a directory symlink} × placement {root FS, tmpfs, across both (real EXDEV)}; a name-related family (source named destination+suffix or dot+destination+suffix and the reverse, in one directory, 14 temp/backup suffixes; also with MoveFile forced into its fallback); source-side aliasing (source path = symlink / 2- and 3-link symlink chain / ./-spelling / hard link of the file, destination = that file, another symlink to it, a hard link of it, each INTERMEDIATE link of the source's own chain, or a symlink pointing into that chain from outside (all links absolute); both operations, one and – for the symlink kinds – two file systems, also with MoveFile forced into its fallback); sizes above plausible internal limits (2 MiB+1, 4 MiB+3, 8 MiB+1, plain and sparse, missing/existing destination, both operations, real and forced EXDEV); an enumerated list of failing steps inside the call (RLIMIT_FSIZE in a probe process; strace tampering: rename→EXDEV or another errno, copy_file_range/read/write/openat/fstat/unlinkat errors at the k-th call, k∈{1,2}). " +
+	return "fault_enumeration", "BOTH TIERS: complete product of operation {CopyFile, MoveFile} × source size × source {present, missing, symlink to file} × destination {missing, shorter, longer, directory, parent missing, parent is a file, symlink to another file, dangling symlink, and the source itself as same path / ./ / dir/../ / symlink / relative symlink / hard link / symlink chain / through a directory symlink} × placement {root FS, tmpfs, across both (real EXDEV)}; a name-related family (source named destination+suffix or dot+destination+suffix and the reverse, in one directory, 14 temp/backup suffixes; also with MoveFile forced into its fallback); source-side aliasing (source path = symlink / 2- and 3-link symlink chain / ./-spelling / hard link of the file, destination = that file, another symlink to it, a hard link of it, each INTERMEDIATE link of the source's own chain, or a symlink pointing into that chain from outside (all links absolute); both operations, one and – for the symlink kinds – two file systems, also with MoveFile forced into its fallback); sizes above plausible internal limits (2 MiB+1, 4 MiB+3, 8 MiB+1, plain and sparse, missing/existing destination, both operations, real and forced EXDEV); concurrent calls (8 and 32 goroutines released together, CopyFile and MoveFile mixed, distinct ~300 KB files in shared directories, on one and across two file systems - where the data goes through the read/write loop and MoveFile through its fallback -, also at GOMAXPROCS=2); an enumerated list of failing steps inside the call (RLIMIT_FSIZE in a probe process; strace tampering: rename→EXDEV or another errno, copy_file_range/read/write/openat/fstat/unlinkat errors at the k-th call, k∈{1,2}). " +
 		"THOROUGH ADDS (deep.go): every size 0..64, ±1 around 4 KiB / 32 KiB / 64 KiB / 1 MiB, 2–32 MiB and sparse sources; sources that are hard-linked or a symlink onto the other file system; destinations of equal length, same content, read-only, non-empty directory, symlink to a directory, symlink loop, symlink chain to another file, symlink to a (missing) file on the other file system, symlink→hard link and symlink→other-FS symlink→source aliases – each for both operations and all four placements; awkward names (spaces, unicode, newline, 250 bytes, leading dashes, shell metacharacters) and path spellings (trailing slash, dir/../dir, //, /./ on either side); a fault sweep that first lists the syscalls of a call on the two paths (strace -P) and then fails EVERY occurrence of each (openat, fstat, newfstatat, copy_file_range, read, write, rename*, unlinkat, …) with each of ENOSPC/EIO/EINTR/EDQUOT (the random shards add EACCES/EMFILE/ENOMEM/EROFS/EBUSY), for copy_file_range and for the read/write fallback; RLIMIT_FSIZE at byte 0, 1, size/3, page and buffer boundaries, size-1, size, size+1 (with copy_file_range disabled this yields genuine short write(2) counts); MoveFile forced into its fallback over every source and destination state; 2/8/32 concurrent calls on distinct files in shared directories; seeded random combinations of all dimensions including faults. " +
 		"Never handed to the code under test: device nodes, FIFOs or any path outside the monitor's own temp dirs. Judged by SHA-256+length snapshots before/after; distinct_nontrivial = distinct (op, size, source, destination, placement, name relation/style/spelling, fault, concurrency) tuples with a source present that were really executed"
 }
@@ -1015,6 +1015,11 @@ func (mon) Plan(prop, tier string, seed int64) []drv.Shard {
 		add(fmt.Sprintf("large-%s-%s", pl[0], pl[1]), shardArgs{Kind: "large", SrcFS: pl[0], DstFS: pl[1]}, 300)
 	}
 	add("large-exdev", shardArgs{Kind: "large-exdev"}, 300)
+	// concurrent calls on unrelated files (no state may be shared between calls)
+	add("conc-q-root-shm", shardArgs{Kind: "conc-quick", SrcFS: "root", DstFS: "shm"}, 300)
+	add("conc-q-shm-shm", shardArgs{Kind: "conc-quick", SrcFS: "shm", DstFS: "shm"}, 300)
+	add("conc-q-shm-root-gomaxprocs2", shardArgs{Kind: "conc-quick", SrcFS: "shm", DstFS: "root"}, 300)
+	out[len(out)-1].Env = []string{"GOMAXPROCS=2"}
 	add("rlimit", shardArgs{Kind: "rlimit"}, 300)
 	exParts, inParts := 4, 10
 	if tier == "thorough" {
@@ -1294,6 +1299,8 @@ func casesFor(tier string, a shardArgs) []Case {
 		return largeCases(a, false)
 	case "large-exdev":
 		return largeCases(a, true)
+	case "conc-quick":
+		return concQuickCases(a)
 	case "rlimit":
 		return rlimitCases(tier)
 	case "exdev":
@@ -1602,10 +1609,10 @@ func (mon) Finish(prop, tier string, m *drv.Merged) []string {
 	if m.Sum["rlimit_fault_calls"] == 0 {
 		inc = append(inc, "no RLIMIT_FSIZE fault row was executed")
 	}
+	if m.Max["concurrent_calls_in_flight"] < 2 {
+		inc = append(inc, "no two concurrent calls were ever in flight at the same time")
+	}
 	if tier == "thorough" {
-		if m.Max["concurrent_calls_in_flight"] < 2 {
-			inc = append(inc, "no two concurrent calls were ever in flight at the same time")
-		}
 		if m.Sum["strace_rows_skipped"] == 0 && m.Sum["sweep_base_calls_enumerated"] < 100 {
 			inc = append(inc, fmt.Sprintf("only %d base calls were enumerated for the every-occurrence fault sweep", m.Sum["sweep_base_calls_enumerated"]))
 		}
